@@ -1181,6 +1181,28 @@ func ruleLoopVerdictsAccumulate(c *core.Ctx) {
 									}
 								}
 							}
+							if okForm == "" {
+								// `for …; cond && v; …`: the loop's own condition tests the verdict, so the loop ends with the first
+								// element that makes it false (the "all elements" form; `cond && !v` is the "some element" form)
+								if fs, isFor := l.(*ast.ForStmt); isFor && fs.Cond != nil {
+									var conj func(e ast.Expr)
+									conj = func(e ast.Expr) {
+										e = ast.Unparen(e)
+										if be, ok := e.(*ast.BinaryExpr); ok && be.Op == token.LAND {
+											conj(be.X)
+											conj(be.Y)
+											return
+										}
+										if ue, ok := e.(*ast.UnaryExpr); ok && ue.Op == token.NOT {
+											e = ast.Unparen(ue.X)
+										}
+										if i2, ok := e.(*ast.Ident); ok && info.ObjectOf(i2) == v {
+											okForm = "the loop condition tests the verdict"
+										}
+									}
+									conj(fs.Cond)
+								}
+							}
 							c.Check(okForm != "", rule, fmt.Sprintf("%s/%s in loop", c.FuncName(d), id.Name), x.Pos(), okForm,
 								"`"+id.Name+"` is declared in front of the loop, read behind it and overwritten in every iteration with the answer for the current element: only the LAST element counts (for `Pair<Rec, int>` with a changed `Rec` the later, unchanged argument resets the verdict and the change is lost)")
 						}
